@@ -743,13 +743,22 @@ class BlockBase(Base):
             while i < len(classes):
                 if enable_do_label_construct_hook:
                     # Multiple, labelled DO statements can reference the
-                    # same label.
+                    # same label. Comments (includes, directives) in front
+                    # of such a statement must not hide it: otherwise the
+                    # statement would be matched as a separate, nested
+                    # construct which swallows the shared terminating
+                    # statement.
+                    leading = []
+                    DynamicImport.add_comments_includes_directives(leading, reader)
                     obj = startcls(reader)
                     if obj is not None and hasattr(obj, "get_start_label"):
                         if start_label == obj.get_start_label():
+                            content.extend(leading)
                             content.append(obj)
                             continue
                         obj.restore_reader(reader)
+                    for prev in reversed(leading):
+                        prev.restore_reader(reader)
                 # Attempt to match the i'th subclass
                 cls = classes[i]
                 try:
